@@ -13,7 +13,7 @@
 (*   does not, "ProvNoSync" provides it but is not Sync, "ProvNoSend"      *)
 (*   provides it, is Sync but not Send                                     *)
 (* C07 program: [nmeth, params, async, kind \in {"static","dyn"},          *)
-(*               depbounds \in 0..2, target \in {"unit","generic"}]        *)
+(*               depbounds \in 0..3 (3: Leaf<u8> + Leaf<u16>), target \in {"unit","generic"}] *)
 (*   targets X1, X2 (same method names; "generic": two instantiations      *)
 (*   X<P1>, X<P2> of ONE generic type); applications A -> X1, B -> X2,     *)
 (*   "NoSel" selects nothing                                               *)
@@ -27,9 +27,10 @@ MName(i) == "m" \o ToString(i)
 C06Asyncs == {"no", "native", "async_trait"}
 C06Sels == {"Self", "ref", "Borrow"}
 \* "byvalue-method": the trait ALSO has a `self`-by-value method; "typed-receiver": a method written `self: &Self`;
+\* "marker": the program ALSO entraits a method-less trait with the same selector (availability must follow the same rule);
 \* "lifetime-trait": the trait has two lifetime parameters related by a where-predicate (`where 't: 'u`); "default-param": a defaulted type parameter
 C06Extras == {"none", "generic-trait", "generic-method", "supertrait", "where", "borrowed-return", "byvalue-method", "typed-receiver",
-              "lifetime-trait", "default-param"}
+              "lifetime-trait", "default-param", "marker"}
 C06WellFormed(p) ==
   /\ (p.async = "native" => p.sel = "Self")            \* dyn dispatch of `async fn` needs async_trait
   /\ (p.extra \in {"generic-method", "byvalue-method"} => p.sel = "Self")    \* not dyn compatible
